@@ -273,9 +273,20 @@ def quoting_ignore_lines():
                  c_commit(b"c2"), c_status()]
 
 
+def prefix_sibling_directories():
+    # sibling DIRECTORIES one of whose names is a proper prefix of the other, the longer one continuing with a
+    # byte below '/', and no tracked file sorting between them: in path order the longer directory comes first
+    return ID + [W(b"src/pkg/util/b.go", b"b"), W(b"src/pkg/util/c.go", b"c"), W(b"src/pkg/util-test/a.go", b"a"), W(b"main.go", b"m"),
+                 W(b"lib/x", b"x"), W(b"lib.d/y", b"y"), W(b"lib (copy)/z", b"z"), W(b"d/e/f", b"1"), W(b"d/e-1/g", b"2"), W(b"d/e+/h", b"3"),
+                 c_add([b"."]), c_ls_files(True), c_commit(b"one"), c_write_tree(), c_status(), W(b"main.go", b"m2"), c_add([b"main.go"]),
+                 c_commit(b"two"), c_reset("mixed", b"HEAD@{1}"), c_ls_files(True), c_status(), c_reset("hard", b"HEAD@{1}"), c_ls_files(True),
+                 c_rm([b"src/pkg/util-test"]), c_commit(b"three"), c_ls_files(True), c_status()]
+
+
 ORACLE_ONLY = {"newline-names", "invalid-ignore-lines", "quoting-ignore-lines"}
 
 DIRECTED = [
+    (("C02", "C05", "C07"), "prefix-sibling-directories", prefix_sibling_directories, "sibling directories util/ and util-test/ (lib/, lib.d/, 'lib (copy)/'): the longer name sorts first in path order; every entry must reach the commit's trees"),
     (("C13", "C17"), "inner-slash-ignore-lines", inner_slash_ignore_lines, "ignore lines with a slash in the middle and none at the end (Goit reads them as directory entries: text followed by anything)"),
     (("C17", "C13"), "ignored-name-directory-became-file", ignored_name_directory_became_file, "a tracked directory whose name an extension entry matches is replaced by a plain file of that name: the file is excluded"),
     (("C20", "C12"), "percent-config-values", percent_config_values, "configuration values containing % (and ending in %), local and global, then used as identity"),
